@@ -104,7 +104,24 @@ pub struct HState {
     pub injected_panics: u32,
 }
 
+/// What a detached helper task of an executor reports (C04).
+#[derive(Clone, Debug)]
+pub enum HelperEv {
+    Start(u64),
+    Read(u64, u32, Val),
+    Done(u64),
+}
+
+/// C04: executors of normal nodes hand a clone of their engine to a spawned
+/// helper task that reads `inputs` one after another and reports to `sink`.
+#[derive(Clone)]
+pub struct HelperCfg {
+    pub inputs: Vec<u32>,
+    pub sink: Arc<dyn Fn(HelperEv) + Send + Sync>,
+}
+
 pub struct Harness {
+    pub helper: Mutex<Option<HelperCfg>>,
     pub program: Program,
     pub world: Mutex<HashMap<u32, Val>>,
     pub st: Mutex<HState>,
@@ -117,6 +134,7 @@ pub struct Harness {
 impl Harness {
     pub fn new(program: Program) -> Arc<Self> {
         Arc::new(Harness {
+            helper: Mutex::new(None),
             program,
             world: Mutex::new(HashMap::new()),
             st: Mutex::new(HState::default()),
@@ -344,6 +362,30 @@ impl NodeExec {
             // point above (an abandoned sub-query) before it gets here
             h.st.lock().injected_panics += 1;
             panic!("{INJECTED_PANIC}");
+        }
+        if h.program.kind(n) == Kind::Nm {
+            let cfg = h.helper.lock().clone();
+            if let Some(cfg) = cfg {
+                // the helper outlives this executor when the request is
+                // abandoned: it is then a reader of its own
+                let te2 = te.clone();
+                let hid = h.next_seq();
+                let jh = tokio::spawn(async move {
+                    (cfg.sink)(HelperEv::Start(hid));
+                    for i in &cfg.inputs {
+                        sched::task_point("h_helper_read", PK::Harness).await;
+                        let v = te2.query(&In(*i)).await;
+                        (cfg.sink)(HelperEv::Read(hid, *i, v));
+                    }
+                    (cfg.sink)(HelperEv::Done(hid));
+                    drop(te2);
+                });
+                if let Err(e) = jh.await {
+                    if e.is_panic() {
+                        std::panic::resume_unwind(e.into_panic());
+                    }
+                }
+            }
         }
         let v = if h.program.kind(n) == Kind::Ex {
             h.world.lock().get(&n).cloned().unwrap_or_default()
